@@ -36,7 +36,12 @@ fn gen_fields(r: &mut Rng, tier: &str, small: bool) -> String {
         let n = if small { gen_payload_len(r, tier, 1452).min(48) } else { gen_payload_len(r, tier, 9000) };
         format!("kind={} ident={} seq={} data={} {}", kind, gen_u16(r), gen_u16(r), hex(&gen_payload(r, n)), ctx)
     } else {
-        let reason = if kind == 1 { 0 } else if r.chance(1, 2) { r.below(7) as u8 } else { gen_u8(r) };
+        let reason = match kind {
+            0 => draw_raw::<Icmpv6DstUnreachable>(r),
+            2 => draw_raw::<Icmpv6TimeExceeded>(r),
+            3 => draw_raw::<Icmpv6ParamProblem>(r),
+            _ => 0,
+        } as u8;
         let word = if kind == 1 || kind == 3 { gen_u32(r) } else { 0 };
         let n = if small { *r.pick(&[0usize, 1, 8, 20, 48]) } else { *r.pick(&[0usize, 1, 8, 64, 1191, 1192, 500]) };
         let n = if r.chance(1, 3) { r.range(0, if small { 48 } else { 1192 }) as usize } else { n };
@@ -47,7 +52,7 @@ fn gen_fields(r: &mut Rng, tier: &str, small: bool) -> String {
             word,
             hex(&gen_ipv6(r)),
             hex(&gen_ipv6(r)),
-            *r.pick(&[6u8, 17, 58, 0, 43, 44, 59, 255]),
+            draw_raw::<IpProtocol>(r) as u8,
             gen_u16(r),
             gen_u8(r),
             hex(&gen_payload(r, n)),
@@ -58,12 +63,12 @@ fn gen_fields(r: &mut Rng, tier: &str, small: bool) -> String {
 
 fn with_repr<T>(kv: &Kv, f: impl FnOnce(Icmpv6Repr) -> T) -> T {
     let data = kv.b("data");
-    let hdr = |kv: &Kv| Ipv6Repr { src_addr: a16(&kv.b("hsrc")), dst_addr: a16(&kv.b("hdst")), next_header: IpProtocol::from(kv.u("hproto") as u8), payload_len: kv.u("hplen") as usize, hop_limit: kv.u("hhop") as u8 };
+    let hdr = |kv: &Kv| Ipv6Repr { src_addr: a16(&kv.b("hsrc")), dst_addr: a16(&kv.b("hdst")), next_header: of_raw::<IpProtocol>((kv.u("hproto") as u8) as u32), payload_len: kv.u("hplen") as usize, hop_limit: kv.u("hhop") as u8 };
     let repr = match kv.u("kind") {
-        0 => Icmpv6Repr::DstUnreachable { reason: Icmpv6DstUnreachable::from(kv.u("reason") as u8), header: hdr(kv), data: &data },
+        0 => Icmpv6Repr::DstUnreachable { reason: of_raw::<Icmpv6DstUnreachable>((kv.u("reason") as u8) as u32), header: hdr(kv), data: &data },
         1 => Icmpv6Repr::PktTooBig { mtu: kv.u("word") as u32, header: hdr(kv), data: &data },
-        2 => Icmpv6Repr::TimeExceeded { reason: Icmpv6TimeExceeded::from(kv.u("reason") as u8), header: hdr(kv), data: &data },
-        3 => Icmpv6Repr::ParamProblem { reason: Icmpv6ParamProblem::from(kv.u("reason") as u8), pointer: kv.u("word") as u32, header: hdr(kv), data: &data },
+        2 => Icmpv6Repr::TimeExceeded { reason: of_raw::<Icmpv6TimeExceeded>((kv.u("reason") as u8) as u32), header: hdr(kv), data: &data },
+        3 => Icmpv6Repr::ParamProblem { reason: of_raw::<Icmpv6ParamProblem>((kv.u("reason") as u8) as u32), pointer: kv.u("word") as u32, header: hdr(kv), data: &data },
         4 => Icmpv6Repr::EchoRequest { ident: kv.u("ident") as u16, seq_no: kv.u("seq") as u16, data: &data },
         _ => Icmpv6Repr::EchoReply { ident: kv.u("ident") as u16, seq_no: kv.u("seq") as u16, data: &data },
     };
